@@ -25,7 +25,7 @@ def reseed(x):
 class WalletCtx:
     """A library wallet together with the reference that knows what its keys must be."""
 
-    def __init__(self, name, kind, network, witness_type, tag, db_uri, m=2, n=3, sort_keys=True):
+    def __init__(self, name, kind, network, witness_type, tag, db_uri, m=2, n=3, sort_keys=True, compressed=True):
         from bitcoinlib.wallets import Wallet
         from bitcoinlib.keys import HDKey, Key
         self.name, self.kind, self.network, self.witness_type = name, kind, network, witness_type
@@ -38,9 +38,11 @@ class WalletCtx:
             self.ref = wallet_ref.SingleRef(seed, network, witness_type)
         elif kind == 'single':
             secret = int.from_bytes(seed_bytes(tag), 'big') % (ec.N - 1) + 1
-            k = HDKey('%064x' % secret, network=network, witness_type=witness_type, key_type='single')
-            self.w = Wallet.create(name, keys=k, network=network, witness_type=witness_type, scheme='single', db_uri=db_uri)
-            self.ref = wallet_ref.FlatRef(secret, network, witness_type)
+            # an old-style uncompressed key (legacy wallets only) is imported the way users have it: as WIF
+            k = HDKey('%064x' % secret, network=network, witness_type=witness_type, key_type='single', compressed=compressed)
+            self.w = Wallet.create(name, keys=k if compressed else k.wif_key(), network=network, witness_type=witness_type, scheme='single',
+                                   db_uri=db_uri)
+            self.ref = wallet_ref.FlatRef(secret, network, witness_type, compressed=compressed)
         else:
             seeds = [seed_bytes('%s-cosigner%d' % (tag, i)) for i in range(n)]
             masters = [HDKey.from_seed(s, network=network, witness_type=witness_type, multisig=True) for s in seeds]
